@@ -89,7 +89,13 @@ fn gen_input(rng: &mut Rng) -> Value {
         1 => Value::Int(3),
         _ => {
             let mut m = BTreeMap::new();
-            m.insert("a".to_string(), if rng.chance(1, 2) { Value::Int(rng.below(3) as i128) } else { Value::String("x".into()) });
+            m.insert("a".to_string(), match rng.below(8) {
+                0 | 1 | 2 => Value::Int(rng.below(3) as i128),
+                3 | 4 => Value::String("x".into()),
+                5 => Value::Decimal(rust_decimal::Decimal::new(15, 1)),
+                6 => Value::DateTime(chrono::DateTime::from_timestamp(1_700_000_000 + rng.below(3) as i64, 5).unwrap()),
+                _ => Value::Duration(chrono::TimeDelta::milliseconds(1_500)),
+            });
             if rng.chance(2, 3) {
                 m.insert("b".to_string(), Value::Int(rng.below(2) as i128));
             }
